@@ -9,6 +9,7 @@ package orefafs
 // A node is entered in the path index only after the path has been seen absent under the index
 // write lock that is still held.
 //@ func (*OrefaFS).createNode
+//@   event
 //@   requires[C06] wheld(vfs.mu) && !dom(vfs.nodes, absPath)
 
 // Link and Rename enter a path in the index: the decision taken from what the index showed must
